@@ -27,6 +27,18 @@ CaseOf(ln) == [kind |-> ln.kind, state |-> Conv(ln.kind, ln.state),
 
 Fields == {"roas", "aspas", "rtr", "children"}
 
+(* The payloads of the published objects (decoded by the harness from the  *)
+(* CA's object set) and the payloads the configuration calls for.          *)
+Published(kind, pub) ==
+    CASE kind = "roa" -> ToSet(pub.roas)
+      [] kind \in {"aspa", "aspap"} -> Conv("aspa", pub.aspas)
+      [] OTHER -> ToSet(pub.rtr)
+(* Only entries backed by held resources can have an object. *)
+PayloadsOf(kind, cfg) ==
+    CASE kind = "roa" -> { x.pl : x \in { y \in cfg : PfxHeld(y.pl) } }
+      [] kind \in {"aspa", "aspap"} -> { x \in cfg : x.cust \in HeldAsns }
+      [] OTHER -> { x \in cfg : x.asn \in HeldAsns }
+
 Failures(ln) ==
     LET c   == CaseOf(ln)
         out == Outcome(c)
@@ -58,6 +70,12 @@ Failures(ln) ==
                THEN { <<"accepted-config-differs", ln.kind>> } ELSE {})
             \cup (IF \E f \in Fields \ {o.field} : o.after[f] # o.before[f]
                THEN { <<"accepted-other-config-changed", ln.kind>> } ELSE {})
+            \* ... down to the objects the CA publishes: exactly one ROA /
+            \* ASPA / router certificate payload per configured entry that
+            \* is backed by held resources
+            \cup (IF /\ ln.kind \in {"roa", "aspa", "aspap", "rtr"}
+                     /\ Published(ln.kind, o.pub) # PayloadsOf(ln.kind, out.cfg)
+               THEN { <<"accepted-objects-differ", ln.kind>> } ELSE {})
             \cup (IF ln.kind \in {"aspa", "aspap"} /\
                      \E x \in ToSet(o.after.aspas) :
                         x.n # Cardinality(ToSet(x.provs))
@@ -66,9 +84,14 @@ Failures(ln) ==
 
 (* What the line exercises, by the specification's own verdict. *)
 Exercised(ln) ==
-    LET out == Outcome(CaseOf(ln)) IN
-    IF out.errs = {} THEN { <<ln.kind, "ok">> }
-    ELSE { <<ln.kind, e>> : e \in out.errs }
+    LET c == CaseOf(ln)
+        out == Outcome(c) IN
+    (IF out.errs = {} THEN { <<ln.kind, "ok">> }
+     ELSE { <<ln.kind, e>> : e \in out.errs })
+    \cup (IF ~ CfgOK(c.kind, c.state)
+          THEN { <<ln.kind, IF out.errs = {} THEN "ok-with-lost-resources"
+                           ELSE "refused-with-lost-resources">> }
+          ELSE {})
 
 TraceInit == l = 1 /\ bad = 0 /\ seen = {}
 
